@@ -108,7 +108,7 @@ func buildStruct(n *dnode, t reflect.Type, prefix []string, l shape.Layer, forma
 				continue
 			}
 			v := shape.MakeValue(sf.Type, seed, shape.ValueOpts{Plain: true})
-			k := valueNode(v, setsAsLists, pk)
+			k := valueNode(v, format, setsAsLists, pk)
 			k.key, k.path, k.typ = keyFor(sf, format), path, sf.Type
 			n.kids = append(n.kids, k)
 		case shape.ClassStruct, shape.ClassPStruct:
@@ -131,7 +131,7 @@ func buildStruct(n *dnode, t reflect.Type, prefix []string, l shape.Layer, forma
 	}
 }
 
-func valueNode(v reflect.Value, setsAsLists bool, pk pick) *dnode {
+func valueNode(v reflect.Value, format string, setsAsLists bool, pk pick) *dnode {
 	switch v.Type() {
 	case durT:
 		return &dnode{kind: 's', val: time.Duration(v.Int())}
@@ -156,10 +156,25 @@ func valueNode(v reflect.Value, setsAsLists bool, pk pick) *dnode {
 		return &dnode{kind: 's', val: v.Float()}
 	case reflect.String:
 		return &dnode{kind: 's', val: v.String()}
-	case reflect.Slice:
+	case reflect.Struct:
+		// an element struct of a list: keys come from its tags like those of
+		// the config struct; a zero-valued field may be left out (a struct
+		// inside a list is not pointerified: absent means zero)
+		n := &dnode{kind: 'm', isStruct: true}
+		for i := 0; i < v.NumField(); i++ {
+			sf, fv := v.Type().Field(i), v.Field(i)
+			if fv.IsZero() && pk("elem_zero_omitted", 2) == 1 {
+				continue
+			}
+			kid := valueNode(fv, format, setsAsLists, pk)
+			kid.key = keyFor(sf, format)
+			n.kids = append(n.kids, kid)
+		}
+		return n
+	case reflect.Slice, reflect.Array:
 		n := &dnode{kind: 'l'}
 		for i := 0; i < v.Len(); i++ {
-			n.kids = append(n.kids, valueNode(v.Index(i), setsAsLists, pk))
+			n.kids = append(n.kids, valueNode(v.Index(i), format, setsAsLists, pk))
 		}
 		return n
 	case reflect.Map:
@@ -188,7 +203,7 @@ func valueNode(v reflect.Value, setsAsLists bool, pk pick) *dnode {
 			if isSet(v.Type()) {
 				kid = &dnode{kind: 'm'} // struct{}{} is an empty mapping
 			} else {
-				kid = valueNode(v.MapIndex(reflect.ValueOf(k).Convert(v.Type().Key())), setsAsLists, pk)
+				kid = valueNode(v.MapIndex(reflect.ValueOf(k).Convert(v.Type().Key())), format, setsAsLists, pk)
 			}
 			kid.key = k
 			n.kids = append(n.kids, kid)
@@ -450,6 +465,14 @@ func (st *yamlStyle) block(b *strings.Builder, n *dnode, ind int) {
 			}
 			b.WriteString("\n")
 			for _, it := range k.kids {
+				if it.kind == 'm' && len(it.kids) > 0 && st.pk("yaml_item_block", 2) == 1 {
+					// - key: v
+					//   key2: v
+					var ib strings.Builder
+					st.block(&ib, it, len(ipad)+2)
+					b.WriteString(ipad + "- " + ib.String()[len(ipad)+2:])
+					continue
+				}
 				b.WriteString(ipad + "- " + st.flow(it) + "\n")
 			}
 		default:
@@ -546,8 +569,12 @@ func (st *tomlStyle) dotted(b *strings.Builder, prefix string, n *dnode) {
 }
 
 func (st *tomlStyle) table(b *strings.Builder, n *dnode, path []string) {
-	var tables []*dnode
+	var tables, arrays []*dnode
 	for _, k := range n.kids {
+		if k.kind == 'l' && isTableList(k) && st.pk("toml_array_of_tables", 2) == 1 {
+			arrays = append(arrays, k)
+			continue
+		}
 		if k.kind != 'm' {
 			b.WriteString(st.key(k.key) + " = " + st.inline(k) + "\n")
 			continue
@@ -570,6 +597,27 @@ func (st *tomlStyle) table(b *strings.Builder, n *dnode, path []string) {
 		b.WriteString("\n[" + strings.Join(p, ".") + "]\n")
 		st.table(b, tb, p)
 	}
+	for _, ar := range arrays {
+		p := append(append([]string{}, path...), st.key(ar.key))
+		for _, el := range ar.kids {
+			b.WriteString("\n[[" + strings.Join(p, ".") + "]]\n")
+			st.table(b, el, p)
+		}
+	}
+}
+
+// isTableList reports whether a list can be written as a TOML array of
+// tables: at least one element and every element a mapping.
+func isTableList(n *dnode) bool {
+	if len(n.kids) == 0 {
+		return false
+	}
+	for _, k := range n.kids {
+		if k.kind != 'm' {
+			return false
+		}
+	}
+	return true
 }
 
 // ---------------------------------------------------------------- Cue
